@@ -22,6 +22,40 @@ var specOps = map[string][]string{
 }
 
 func (m *Model) RunOpTable(s *Sink, rule string) {
+	// the operator table: decided by case evaluation (rule_opcases.go); the structural reading of the typed evaluators
+	// is the diagnosis (it names the case) and the decision when the cases cannot be evaluated
+	sub := NewSink()
+	m.runOpTableStruct(sub, rule)
+	cr := m.opCases()
+	switch {
+	case cr.decided && len(cr.bad) == 0:
+		s.OK(rule, "operators by cases|every operator of the table computes the Go operator of the same name on (left, right)", cr.pos,
+			"case evaluation of Eval on an abstract infix expression: %d operator/kind cases with named payloads L and R; results are `L op R`, the comparison's truth value, or an error for a zero divisor / operands of different kinds", cr.cases)
+		for _, o := range sub.Obls {
+			if o.Status == Violated || o.Status == Undecided {
+				s.OK(o.Rule, o.Key, o.Pos, "the code does not have the shape this structural reading expects (%s); decided by case evaluation instead", o.Detail)
+			} else {
+				s.Obls = append(s.Obls, o)
+			}
+		}
+	case cr.decided:
+		keys := make([]string, 0, len(cr.bad))
+		for k := range cr.bad {
+			keys = append(keys, k)
+		}
+		sort.Strings(keys)
+		for _, k := range keys {
+			s.Violation(rule, "operators by cases|"+k, cr.pos, "evaluating `left %s right`: %s", k, cr.bad[k])
+		}
+		s.Obls = append(s.Obls, sub.Obls...)
+	default:
+		s.Note(rule, "operators by cases", cr.pos, "case evaluation not possible (%s); structural reading only", cr.why)
+		s.Obls = append(s.Obls, sub.Obls...)
+	}
+	m.runOpTableRest(s, rule)
+}
+
+func (m *Model) runOpTableStruct(s *Sink, rule string) {
 	disp := m.Method("evaluator", "Evaluator", "evalInfixOperatorExp")
 	outer := m.Method("evaluator", "Evaluator", "evalInfixExp")
 	if disp == nil || outer == nil {
@@ -114,6 +148,9 @@ func (m *Model) RunOpTable(s *Sink, rule string) {
 			s.Violation(rule, fnKey(disp)+"|operands of kind "+k, m.Pos(disp.Pos()), "no typed evaluator is dispatched for operands of kind %s", k)
 		}
 	}
+}
+
+func (m *Model) runOpTableRest(s *Sink, rule string) {
 	m.runSingletonsAndPurity(s, rule)
 	// prefix minus and postfix ++/--
 	if fn := m.Method("evaluator", "Evaluator", "evalMinusPrefixOperatorExp"); fn != nil {
